@@ -513,7 +513,7 @@ Theorem get_citations_remove_ambiguous_false :
 Proof.
   intros H.
   destruct (get_citations_remove_ambiguous_counterexample
-              (fun _ _ => None) (fun _ _ => []) 0%nat 0%nat {| d_nd := []; d_isdigit := [] |} 0 0
+              (fun _ _ => None) (fun _ _ => []) 0%nat 0%nat {| d_nd := []; d_isdigit := []; d_maxdigits := 4300%N |} 0 0
               (fun _ => None) (fun _ => 0%nat) (fun _ => false) (fun _ => false) [] []) as [H1 H2].
   apply H2. apply H. exact H1.
 Qed.
